@@ -160,6 +160,12 @@ KERNELS = [
     dict(name="growing_mutation", file="utils/mutations.py", func="growing_mutation",
          params=[("tree", "Tree"), ("uniset", "Opaque"), ("proba", "Int"), ("max_level", "Int")], ret="Tree", streams=True,
          tree_calls={"concat": "Tree_concat", "get_levels": "Tree_get_levels"}, tree_ext_fn={"Tree.growing_method": "grower"}),
+    # ---- point_mutation: nodes are identifiers; `isinstance(node, FunctionalNode)` and `node._n_args` are function parameters
+    #      on identifiers, the two draws of the universal set are function parameters of their argument and the call's ordinal
+    dict(name="point_mutation", file="utils/mutations.py", func="point_mutation",
+         params=[("tree", "Tree"), ("uniset", "Opaque"), ("proba", "Int"), ("max_level", "Int")], ret="Tree", streams=True,
+         node_preds={"FunctionalNode": "isFunctional"}, node_attrs={"_n_args": "nodeArity"},
+         opaque_fn={"uniset._random_functional": ("randFunctional", ["Int"]), "uniset._random_terminal_or_ephemeral": ("randTerminal", [])}),
     # ---- the donor strategies of differential evolution: straight-line vector arithmetic (translated over the ring Int: the
     #      float operations are read as ring operations) on rows chosen by random_sample, which is a parameter taking
     #      the call's actual arguments and the call's ordinal: `sample range_size quantity replace k`
@@ -234,6 +240,9 @@ class Tr:
         self.ext_stream = cfg.get("ext_stream", {})
         self.ext_fn = cfg.get("ext_fn", {})
         self.tree_ext_fn = cfg.get("tree_ext_fn", {})
+        self.node_preds = cfg.get("node_preds", {})
+        self.node_attrs = cfg.get("node_attrs", {})
+        self.opaque_fn = cfg.get("opaque_fn", {})
         self.opaque_params = {n for n, t in cfg["params"] if t == "Opaque"}
         self.self_state = cfg.get("self_state", [])
         self.method_uses = cfg.get("method_uses", {})
@@ -324,6 +333,10 @@ class Tr:
                 return "Arr"
             if nm in ("flip_coin", "bool") or self.self_call_name(e) in self.bool_stream:
                 return "Bool"
+            if nm == "isinstance" and len(e.args) == 2 and isinstance(e.args[1], ast.Name) and e.args[1].id in self.node_preds:
+                return "Bool"
+            if nm in self.opaque_fn:
+                return "Int"
             if nm in self.ext:
                 return self.ext[nm][1]
             if nm in self.uses:
@@ -458,6 +471,9 @@ class Tr:
             lines.append(f"{{ s with {t} := Imp.geti ns s.kn, dry := s.dry || decide (ns.length ≤ s.kn), kn := s.kn + 1 }}")
             env[id(e)] = f"s.{t}"
             return
+        if isinstance(e, ast.Call) and isinstance(e.func, ast.Name) and e.func.id == "isinstance" and len(e.args) == 2:
+            self.hoist(e.args[0], lines, env, guarded)
+            return
         if isinstance(e, ast.Call):
             nm = callname(e.func)
             kind = self.effect_kind(e)
@@ -467,6 +483,7 @@ class Tr:
                 other = inner.right if self.is_rr(inner.left) else inner.left
                 self.hoist(other, lines, env, guarded)
             elif isinstance(e.func, ast.Attribute) and not is_np(e.func, *NP_FUNCS) and nm not in ("random.random", "np.random.randint") \
+                    and nm not in self.opaque_fn \
                     and not (isinstance(e.func.value, ast.Name) and e.func.value.id == "self"):
                 self.hoist(e.func.value, lines, env, guarded)
                 for a in e.args:
@@ -519,6 +536,13 @@ class Tr:
                     raise NotRecognised(f"arguments of {ast.unparse(e)}")
                 t = self.tmp("Arr")
                 lines.append(f"{{ s with {t} := {par} " + " ".join(self.E(a, env) for a in actual) + f" s.kx, kx := s.kx + 1 }}")
+                env[id(e)] = f"s.{t}"
+            elif kind == "ofn":
+                par, tys = self.opaque_fn[nm]
+                if len(e.args) != len(tys) or e.keywords:
+                    raise NotRecognised(f"arguments of {ast.unparse(e)}")
+                t = self.tmp("Int")
+                lines.append(f"{{ s with {t} := {par} " + " ".join(self.E(a, env) for a in e.args) + f" s.kx, kx := s.kx + 1 }}")
                 env[id(e)] = f"s.{t}"
             elif kind == "pop":
                 a = self.id(e.func.value.id)
@@ -696,6 +720,8 @@ class Tr:
             return "xstream"
         if nm in self.ext_fn:
             return "xfn"
+        if nm in self.opaque_fn:
+            return "ofn"
         if self.self_call_name(e) in self.bool_stream:
             return "bstream"
         return None
@@ -736,6 +762,8 @@ class Tr:
                 return f"s.self{dotted}"
             if e.attr == "size" and self.ty(e.value) == "Arr":
                 return f"(Imp.leni {self.E(e.value, env)})"
+            if e.attr in self.node_attrs and self._safe_ty(e.value) == "Int" and not isinstance(e.value, ast.Name):
+                return f"({self.node_attrs[e.attr]} {self.E(e.value, env)})"
             raise NotRecognised(f"attribute {ast.unparse(e)}")
         if isinstance(e, ast.BinOp):
             if self.roll_stream and isinstance(e.op, ast.Mult) and (self.is_rr(e.left) or self.is_rr(e.right)):
@@ -815,6 +843,8 @@ class Tr:
             if nm in self.ext:
                 return self.ext[nm][0]
             if isinstance(f, ast.Name):
+                if f.id == "isinstance" and len(args) == 2 and isinstance(args[1], ast.Name) and args[1].id in self.node_preds and self.ty(args[0]) == "Int":
+                    return f"({self.node_preds[args[1].id]} {self.E(args[0], env)})"
                 if f.id == "len" and len(args) == 1 and self.is_tree_value(args[0]):
                     return f"(Imp.leni {self.tree_pair(args[0], env)[0]})"
                 if f.id == "len" and len(args) == 1:
@@ -881,6 +911,8 @@ class Tr:
                 else:
                     acc = self.oob(v, env)
             return acc
+        if isinstance(e, ast.Call) and isinstance(e.func, ast.Name) and e.func.id == "isinstance" and len(e.args) == 2:
+            return self.oob(e.args[0], env)
         if self.tree2(e) is not None:
             return "false"          # a component of a parameter declared as a list of that many trees
         if isinstance(e, ast.Subscript) and is_np(e.value, "r_"):
@@ -997,6 +1029,8 @@ class Tr:
                     L.append(f"{{ s with {a} := s.{a} ++ {self.E(c.args[0], env)} }}")
                     return L
             raise NotRecognised(f"expression statement {ast.unparse(st)}")
+        if isinstance(st, ast.AnnAssign) and st.value is None:
+            return []
         if isinstance(st, ast.AnnAssign) and isinstance(st.target, ast.Name) and st.value is not None:
             env = self.pre([st.value], L)
             L.append(f"{{ s with {self.id(st.target.id)} := {self.Ex(st.value, env)} }}")
@@ -1061,6 +1095,12 @@ class Tr:
                 lo, hi = self.E(t.slice.lower, env), self.E(t.slice.upper, env)
                 L.append(f"{{ s with err := s.err || decide ({lo} < 0) || decide ({hi} < {lo}) || decide ((Imp.leni s.{fld}) < {hi}), "
                          f"{fld} := (s.{fld}.take ({lo}).toNat) ++ {self.E(st.value, env)} ++ (s.{fld}.drop ({hi}).toNat) }}")
+                return L
+            if isinstance(t, ast.Subscript) and not isinstance(t.slice, ast.Slice) and self.tree_attr(t.value) is not None and self.tree_attr(t.value).startswith("s."):
+                fld = self.tree_attr(t.value)[2:]
+                env = self.pre([st.value, t.slice], L)
+                i = self.E(t.slice, env)
+                L.append(f"{{ s with err := s.err || (! Imp.inb s.{fld} {i}), {fld} := Imp.seti s.{fld} {i} {self.E(st.value, env)} }}")
                 return L
             if isinstance(t, ast.Attribute) and self.self_path(t) in self.self_state:
                 env = self.pre([st.value], L)
@@ -1301,6 +1341,9 @@ class Tr:
         extra += "".join(f" ({v} : List (List Int))" for v in self.ext_stream.values())
         extra += "".join(f" ({par} : " + " → ".join(LTY[KERNEL_PARAM_TY[nm_][a]] for a in names) + " → Nat → List Int)" for nm_, (par, names) in self.ext_fn.items())
         extra += "".join(f" ({par} : Int → List (List Int))" for par in self.tree_ext_fn.values())
+        extra += "".join(f" ({par} : Int → Bool)" for par in self.node_preds.values())
+        extra += "".join(f" ({par} : Int → Int)" for par in self.node_attrs.values())
+        extra += "".join(f" ({par} : " + "".join(LTY[t] + " → " for t in tys) + "Nat → Int)" for par, tys in self.opaque_fn.values())
         extra += "".join(f" ({par} : List Int)" for _, par in self.opaque_if.values())
         extra += "".join(f" ({v} : Bool)" for v in self.not_none.values())
         extra += "".join(f" ({par} : List Int)" for par, _ in self.bool_stream.values())
@@ -1310,7 +1353,7 @@ class Tr:
                 f"   on every run of the checks that depend on it. Do not edit. -/\n"
                 f"import TFV.Model.Imp\n{imports}\nset_option linter.unusedVariables false\n\nnamespace TFV.Generated.Src\nopen TFV\n\n"
                 f"structure {name}.S where\n{fields}  brk : Bool := false\n  cnt : Bool := false\n  err : Bool := false\n  dry : Bool := false\n"
-                f"  ku : Nat := 0\n  kn : Nat := 0\n  kr : Nat := 0\n" + ("  kx : Nat := 0\n" if (self.ext_stream or self.ext_fn) else "") + ("  kb : Nat := 0\n  log : List Int := []\n" if (self.bool_stream or self.actions) else "") + "\n"
+                f"  ku : Nat := 0\n  kn : Nat := 0\n  kr : Nat := 0\n" + ("  kx : Nat := 0\n" if (self.ext_stream or self.ext_fn or self.opaque_fn) else "") + ("  kb : Nat := 0\n  log : List Int := []\n" if (self.bool_stream or self.actions) else "") + "\n"
                 f"def {name} {params} {extra} : Option ({LTY[cfg['ret']]}) :=\n"
                 f"  let s : {name}.S := {{" + ", ".join(f"self{a} := Imp.geti self ({k} : Int)" for k, a in enumerate(self.self_state)) + f"}}\n{fuel}{body}\n\nend TFV.Generated.Src\n")
 
